@@ -210,7 +210,10 @@ fn eval_path_expr(
         }
         expr::PathExpr::Root => match node {
             dom::XmlNode::Document(_) => vec![node].as_value(),
-            _ => vec![node.owner_document().unwrap().as_node()].as_value(),
+            _ => match node.owner_document() {
+                Some(doc) => vec![doc.as_node()].as_value(),
+                None => return Err(error::Error::NotSupported("root of this node".to_string())),
+            },
         },
     };
 
@@ -260,7 +263,9 @@ fn eval_primary_expr(
         expr::PrimaryExpr::Function(func) => eval_func_expr(func, node, context),
         expr::PrimaryExpr::Literal(literal) => Ok(literal.to_string().as_value()),
         expr::PrimaryExpr::Number(number) => Ok(number.parse::<f64>().unwrap().as_value()),
-        expr::PrimaryExpr::Variable(_) => unimplemented!("Not support `VariableReference`."),
+        expr::PrimaryExpr::Variable(_) => {
+            Err(error::Error::NotSupported("VariableReference".to_string()))
+        }
     }
 }
 
@@ -288,7 +293,10 @@ fn eval_filtered_loc_expr(
         } else {
             let root = match node {
                 dom::XmlNode::Document(_) => node,
-                _ => node.owner_document().unwrap().as_node(),
+                _ => match node.owner_document() {
+                    Some(doc) => doc.as_node(),
+                    None => return Err(error::Error::NotSupported("root of this node".to_string())),
+                },
             };
             match op {
                 expr::LocationPathOperator::Current => vec![root],
@@ -346,10 +354,7 @@ fn eval_step_expr(
 ) -> error::Result<Vec<dom::XmlNode>> {
     match step {
         expr::Step::Current => Ok(vec![node]),
-        expr::Step::Parent => match node {
-            dom::XmlNode::Document(_) => Ok(vec![]),
-            _ => Ok(vec![node.parent_node().unwrap()]),
-        },
+        expr::Step::Parent => Ok(parent(&node).into_iter().collect()),
         expr::Step::Test(axis, test, predicate) => {
             eval_axis_node_test(axis, test, predicate, node, context)
         }
@@ -378,7 +383,7 @@ fn eval_axis_node_test(
             expr::AxisName::Following => following(node),
             expr::AxisName::FollowingSibling => following_sibling(node),
             expr::AxisName::Namespace => namespace(node),
-            expr::AxisName::Parent => vec![node.parent_node().unwrap()],
+            expr::AxisName::Parent => parent(&node).into_iter().collect(),
             expr::AxisName::Preceding => preceding(node),
             expr::AxisName::PrecedingSibling => preceding_sibling(node),
             expr::AxisName::Current => vec![node],
@@ -467,7 +472,9 @@ fn eval_node_test(
                 Ok(equal_qname(qname, node, context)? && is_principal)
             }
         },
-        expr::NodeTest::PI(_) => unimplemented!("Not support `processing-instruction`."),
+        expr::NodeTest::PI(target) => {
+            Ok(node.node_type() == dom::NodeType::PI && node.node_name() == *target)
+        }
         expr::NodeTest::Type(ty) => match ty {
             expr::NodeType::Comment => Ok(node.node_type() == dom::NodeType::Comment),
             expr::NodeType::Node => Ok(true),
@@ -519,13 +526,28 @@ fn eval_func_expr(
 
 // -----------------------------------------------------------------------------------------------
 
+/// The parent of a node in the XPath data model: the root has none, the parent of an
+/// attribute is the element that bears it (DOM attributes have no parent node).
+fn parent(node: &dom::XmlNode) -> Option<dom::XmlNode> {
+    match node {
+        dom::XmlNode::Attribute(attr) => {
+            let id = node.id();
+            let root = attr.owner_document()?.as_node();
+            descendant(root)
+                .into_iter()
+                .find(|e| attributes(e.clone()).iter().any(|a| a.id() == id))
+        }
+        _ => node.parent_node(),
+    }
+}
+
 fn ancestor(node: dom::XmlNode) -> Vec<dom::XmlNode> {
     let mut nodes = vec![];
 
-    let mut parent = node.parent_node();
-    while let Some(p) = parent {
+    let mut next = parent(&node);
+    while let Some(p) = next {
         nodes.push(p.clone());
-        parent = p.parent_node();
+        next = p.parent_node();
     }
 
     nodes
@@ -591,6 +613,18 @@ fn descendant_and_self(node: dom::XmlNode) -> Vec<dom::XmlNode> {
 fn following(node: dom::XmlNode) -> Vec<dom::XmlNode> {
     let mut nodes = vec![];
 
+    // an attribute precedes the children of its element
+    let node = match node {
+        dom::XmlNode::Attribute(_) | dom::XmlNode::Namespace(_) => match parent(&node) {
+            Some(owner) => {
+                nodes.append(&mut descendant(owner.clone()));
+                owner
+            }
+            None => return nodes,
+        },
+        _ => node,
+    };
+
     for a in ancestor_and_self(node) {
         for n in following_sibling(a) {
             nodes.append(&mut descendant_and_self(n));
@@ -631,6 +665,14 @@ fn namespace(node: dom::XmlNode) -> Vec<dom::XmlNode> {
 /// each of its ancestors, with their descendants.
 fn preceding(node: dom::XmlNode) -> Vec<dom::XmlNode> {
     let mut nodes = vec![];
+
+    let node = match node {
+        dom::XmlNode::Attribute(_) | dom::XmlNode::Namespace(_) => match parent(&node) {
+            Some(owner) => owner,
+            None => return nodes,
+        },
+        _ => node,
+    };
 
     for a in ancestor_and_self(node) {
         for p in preceding_sibling(a) {
